@@ -1,10 +1,53 @@
 (* C19 — the raft core's view of its log always equals the logical log.
-   Statements only: each theorem is closed by [exact <lemma>]; proofs live in Proofs/LogView.v. *)
+   Statements only: each theorem is closed by [exact <lemma>]; proofs live in Proofs/LogView.v.
+
+   Model/LogView.v is the faithful model (inMemory, entryLog, Peer.GetUpdate/Commit,
+   raft.restore / handleReplicateMessage log parts, LogReader, abstract store);
+   Model/LogSpec.v the logical log.  R (Proofs/LogView.v) is the invariant tying
+   them together; [views_eq] is equality of ALL views: first/last index, term at
+   every index, entries of every range with every size limit (including the error
+   outcomes), entries to save, entries to apply, committed, processed. *)
 From DB Require Import Base.Bytes Gen.GenC19 Model.LogSpec Model.LogView Proofs.LogView.
 Open Scope N_scope.
 
-(* merge(): replace / truncate-and-append always leaves savedTo strictly below the
-   first new index, so a re-appended entry is handed out for persistence again *)
+(* Under the invariant R every view of the faithful model equals the logical
+   log's (the reader/in-memory stitching of term() and getEntries(), limitSize,
+   the LogReader drop rule and the store iteration included).  Unconditional in
+   the state: holds for EVERY model state related to a spec state by R. *)
+Theorem logview_views_equal_under_invariant : forall w sp, R w sp -> views_eq w sp.
+Proof. exact R_views. Qed.
+Print Assumptions logview_views_equal_under_invariant.
+
+(* PARTIAL (logview_refines): R is established by every (re)start state and proved
+   preserved by leader/raw appends (all three merge() branches: append, replace,
+   truncate-and-append) and commitTo, so for all well-formed sequences of those
+   operations, from every well-formed restart state, the run does not fail and all
+   views equal the logical log's.  MISSING: the per-step preservation lemmas for
+   OReplicate, OGetUpdate/OPersist/OCommit, ORestore and OCompact (R is already
+   stated for them: phases, pending snapshot, cover); until they are proved those
+   operations are covered by the exact differential run (model = code after every
+   op) plus the driver's spec cross-check and the Go monitor, not by a theorem. *)
+Theorem logview_refines_partial : forall mi mt ents c limit ops,
+  wf_init mi mt ents c = true -> forallb core_op ops = true ->
+  wf_ops limit (sp_init mi mt ents c) ops = true ->
+  exists w', run (w_init mi mt ents c limit) ops = Ok w' /\
+             views_eq w' (sp_run limit (sp_init mi mt ents c) ops).
+Proof. exact logview_refines_partial_proved. Qed.
+Print Assumptions logview_refines_partial.
+
+(* PARTIAL (err_unreachable_under_wf): same operation set as above; no panic and no
+   error value is reachable. *)
+Theorem err_unreachable_under_wf_partial : forall mi mt ents c limit ops,
+  wf_init mi mt ents c = true -> forallb core_op ops = true ->
+  wf_ops limit (sp_init mi mt ents c) ops = true ->
+  (forall t, run (w_init mi mt ents c limit) ops <> Panic t) /\
+  (forall e, run (w_init mi mt ents c limit) ops <> Fail e).
+Proof. exact err_unreachable_under_wf_partial_proved. Qed.
+Print Assumptions err_unreachable_under_wf_partial.
+
+(* reappended_entry_saved_again, step-local half (complete, every state):
+   merge() with a first new index at or below the last in-memory index leaves
+   savedTo strictly below it, so the re-appended entries are in entriesToSave again *)
 Theorem merge_truncation_lowers_saved :
   forall im e0 rest im',
     im_merge im (e0 :: rest) = Ok im' ->
@@ -14,7 +57,7 @@ Theorem merge_truncation_lowers_saved :
 Proof. exact merge_truncation_lowers_saved_proved. Qed.
 Print Assumptions merge_truncation_lowers_saved.
 
-(* savedLogTo only advances if index and term still match *)
+(* ... and savedLogTo only advances if index and term still match (complete, every state) *)
 Theorem saved_log_to_only_on_match :
   forall im i t im',
     im_saved_log_to im i t = Ok im' ->
@@ -24,7 +67,33 @@ Theorem saved_log_to_only_on_match :
 Proof. exact saved_log_to_only_on_match_proved. Qed.
 Print Assumptions saved_log_to_only_on_match.
 
-(* non-vacuity: a truncating merge that succeeds *)
+(* PARTIAL (reappended_entry_saved_again, global half): every index that counts as
+   saved holds, in the persistent store, exactly the current entry of the logical
+   log.  Proved for the operation set of logview_refines_partial; MISSING: as there. *)
+Theorem reappended_entry_saved_again_partial : forall mi mt ents c limit ops w',
+  wf_init mi mt ents c = true -> forallb core_op ops = true ->
+  wf_ops limit (sp_init mi mt ents c) ops = true ->
+  run (w_init mi mt ents c limit) ops = Ok w' ->
+  let sp' := sp_run limit (sp_init mi mt ents c) ops in
+  forall i, sp_mi sp' < i -> i <= im_saved (el_im (w_el w')) ->
+    exists e, st_get (w_st w') i = Some e /\ sp_get sp' i = Some e /\ e_index e = i.
+Proof. exact saved_entries_persisted_partial_proved. Qed.
+Print Assumptions reappended_entry_saved_again_partial.
+
+(* non-vacuity: a restart state with a marker and three persisted entries, then a
+   truncating append above commit, an extending append and a commit: well-formed,
+   runs, and index 6 (re-appended with term 3) has to be saved again *)
+Example c19_witness :
+  let ents := [mkE 6 1 1 10; mkE 7 1 2 0; mkE 8 2 3 5] in
+  let ops := [OAppend [mkE 7 3 4 0; mkE 8 3 5 1]; OAppend [mkE 9 4 6 0]; OCommitTo 8] in
+  wf_init 5 1 ents 6 = true /\ forallb core_op ops = true /\
+  wf_ops 1000 (sp_init 5 1 ents 6) ops = true /\
+  (match run (w_init 5 1 ents 6 1000) ops with
+   | Ok w => el_to_save (w_el w) = [mkE 7 3 4 0; mkE 8 3 5 1; mkE 9 4 6 0]
+             /\ im_saved (el_im (w_el w)) = 6 /\ el_committed (w_el w) = 8
+   | _ => False end).
+Proof. vm_compute. repeat split; reflexivity. Qed.
+
 Example merge_truncation_witness :
   exists im', im_merge (mkIM None [mkE 5 1 0 0; mkE 6 1 0 0; mkE 7 1 0 0] 7 5 0 0) [mkE 6 2 0 0] = Ok im'
               /\ im_saved im' = 5.
